@@ -47,17 +47,114 @@ func hexLen(alg string) int {
 	return 0
 }
 
-func (it *Interp) digestOf(alg string, content []*Term) Str {
+// valsOf converts bytes to the universe's content representation.
+func termsToVals(bs []*Term) []Value {
+	out := make([]Value, len(bs))
+	for i, b := range bs {
+		out[i] = b
+	}
+	return out
+}
+
+func valsAllConst(vs []Value) bool {
+	for _, v := range vs {
+		t, ok := v.(*Term)
+		if !ok || !t.isConst() {
+			return false
+		}
+	}
+	return true
+}
+
+// valsEqual: equality of two contents; elements are byte terms or opaque JSON blobs
+// (compared structurally).
+func (it *Interp) valsEqual(a, b []Value) *Term {
+	if len(a) != len(b) {
+		return tFalse
+	}
+	var cs []*Term
+	for i := range a {
+		switch x := a[i].(type) {
+		case *Term:
+			y, ok := b[i].(*Term)
+			if !ok {
+				return tFalse
+			}
+			cs = append(cs, mkEq(x, y))
+		case *jsonBlob:
+			y, ok := b[i].(*jsonBlob)
+			if !ok {
+				return tFalse
+			}
+			cs = append(cs, it.jsonEq(x.root, y.root))
+		default:
+			return tFalse
+		}
+	}
+	return mkAnd(cs...)
+}
+
+func (it *Interp) jsonEq(a, b *jnode) *Term {
+	if a == b {
+		return tTrue
+	}
+	if a.kind != b.kind {
+		return tFalse
+	}
+	switch a.kind {
+	case 'z':
+		return tTrue
+	case 'b':
+		return mkEq(a.b, b.b)
+	case 'n':
+		return mkEq(a.num, b.num)
+	case 'f':
+		return mkBool(a.f == b.f)
+	case 's':
+		x, y := a.str.force(), b.str.force()
+		if x.isAtom() || y.isAtom() {
+			return it.strEqV(x, y)
+		}
+		return strEq(x, y)
+	case 'r':
+		return it.valsEqual(a.raw, b.raw)
+	case 'a':
+		if len(a.elems) != len(b.elems) {
+			return tFalse
+		}
+		var cs []*Term
+		for i := range a.elems {
+			cs = append(cs, it.jsonEq(a.elems[i], b.elems[i]))
+		}
+		return mkAnd(cs...)
+	case 'o':
+		if len(a.fields) != len(b.fields) {
+			return tFalse
+		}
+		var cs []*Term
+		for i := range a.fields {
+			cs = append(cs, it.strEqV(a.fields[i].keyS, b.fields[i].keyS), it.jsonEq(a.fields[i].val, b.fields[i].val))
+		}
+		return mkAnd(cs...)
+	}
+	return tFalse
+}
+
+func (it *Interp) digestOf(alg string, contentT []*Term) Str {
+	return it.digestOfVals(alg, termsToVals(contentT))
+}
+
+func (it *Interp) digestOfVals(alg string, content []Value) Str {
 	n := hexLen(alg)
 	if n == 0 {
 		panic(unsupported("digest with algorithm " + alg))
 	}
-	concrete := allConst(content)
+	concrete := valsAllConst(content)
 	var raw []byte
 	if concrete {
 		raw = make([]byte, len(content))
 		for i, t := range content {
-			raw[i] = byte(t.cv)
+			raw[i] = byte(t.(*Term).cv)
 		}
 	}
 	// equal to an earlier member of the universe?
@@ -65,11 +162,7 @@ func (it *Interp) digestOf(alg string, content []*Term) Str {
 		if e.alg != alg || len(e.content) != len(content) {
 			continue
 		}
-		var cs []*Term
-		for i := range content {
-			cs = append(cs, mkEq(e.content[i], content[i]))
-		}
-		eq := mkAnd(cs...)
+		eq := it.valsEqual(e.content, content)
 		if eq.isFalse() {
 			continue
 		}
@@ -94,7 +187,7 @@ func (it *Interp) digestOf(alg string, content []*Term) Str {
 // hashObj is the engine-side hash.Hash.
 type hashObj struct {
 	alg  string
-	data []*Term
+	data []Value
 }
 
 func (it *Interp) newHashObj(alg string) Value {
@@ -102,10 +195,10 @@ func (it *Interp) newHashObj(alg string) Value {
 	o := &nativeObj{typ: &nativeType{"hash.Hash(" + alg + ")"}, methods: map[string]*Native{}, data: h}
 	o.methods["Write"] = &Native{name: "Write", fn: func(fr *frame, a []Value) Value {
 		it.impure("hash write")
-		bs := bytesOfSlice(a[0])
+		bs := a[0].(Slice).a
 		old := h.data
 		it.ex.journal = append(it.ex.journal, undoEntry{fn: func() { h.data = old }})
-		h.data = append(append([]*Term{}, h.data...), bs...)
+		h.data = append(append([]Value{}, h.data...), bs...)
 		return Tuple{mkInt(int64(len(bs))), Iface{}}
 	}}
 	o.methods["Reset"] = &Native{name: "Reset", fn: func(fr *frame, a []Value) Value {
@@ -124,13 +217,13 @@ func (it *Interp) newHashObj(alg string) Value {
 func init() {
 	const pkg = "github.com/opencontainers/go-digest."
 	reg(pkg+"FromBytes", func(it *Interp, fr *frame, fn *ssa.Function, args []Value) Value {
-		return it.digestOf("sha256", bytesOfSlice(args[0]))
+		return it.digestOfVals("sha256", args[0].(Slice).a)
 	})
 	reg(pkg+"FromString", func(it *Interp, fr *frame, fn *ssa.Function, args []Value) Value {
 		return it.digestOf("sha256", asStr(args[0]).bytes())
 	})
 	reg("("+pkg+"Algorithm).FromBytes", func(it *Interp, fr *frame, fn *ssa.Function, args []Value) Value {
-		return it.digestOf(asStr(args[0]).s, bytesOfSlice(args[1]))
+		return it.digestOfVals(asStr(args[0]).s, args[1].(Slice).a)
 	})
 	reg("("+pkg+"Algorithm).FromString", func(it *Interp, fr *frame, fn *ssa.Function, args []Value) Value {
 		return it.digestOf(asStr(args[0]).s, asStr(args[1]).bytes())
@@ -157,6 +250,6 @@ func init() {
 		if !alg.isConcrete() {
 			panic(unsupported("digest.NewDigest with symbolic algorithm"))
 		}
-		return it.digestOf(alg.s, ho.data)
+		return it.digestOfVals(alg.s, ho.data)
 	})
 }
